@@ -32,7 +32,17 @@ func init() {
 }
 
 func implDecode(src []byte) ([]byte, bool) {
-	out, err := http2.HuffmanDecode(nil, src)
+	return implDecodeInto(nil, src)
+}
+
+// implDecodeInto: a panic is reported as a failed decode whose "output" names the panic.
+func implDecodeInto(dst, src []byte) (out []byte, ok bool) {
+	defer func() {
+		if r := recover(); r != nil {
+			out, ok = []byte(fmt.Sprintf("PANIC: %v", r)), false
+		}
+	}()
+	out, err := http2.HuffmanDecode(dst, src)
 	if err != nil {
 		return nil, false
 	}
@@ -77,7 +87,7 @@ func c15Decode(src []byte) *fw.Violation {
 	}
 	if !ok {
 		return &fw.Violation{Rule: "huffman-decode-accept", Shape: "ref=accept impl=reject",
-			Detail: fmt.Sprintf("HuffmanDecode(%x) failed but it is a valid encoding of %q", src, want), Replay: rep}
+			Detail: fmt.Sprintf("HuffmanDecode(%x) failed (%s) but it is a valid encoding of %q", src, got, want), Replay: rep}
 	}
 	if !bytes.Equal(got, want) {
 		return &fw.Violation{Rule: "huffman-decode-output", Shape: "output differs",
@@ -97,7 +107,27 @@ func c15Encode(s []byte) *fw.Violation {
 	back, ok := implDecode(got)
 	if !ok || !bytes.Equal(back, s) {
 		return &fw.Violation{Rule: "huffman-roundtrip", Shape: fmt.Sprintf("len=%d", min(len(s), 3)),
-			Detail: fmt.Sprintf("HuffmanDecode(HuffmanEncode(%x)) = %x ok=%v", s, back, ok), Replay: rep}
+			Detail: fmt.Sprintf("HuffmanDecode(HuffmanEncode(%x)) = %q ok=%v", s, back, ok), Replay: rep}
+	}
+	return nil
+}
+
+// c15Into: the destination the caller passes (empty with little room, or holding earlier output) is appended to
+// and nothing else about it matters.
+func c15Into(s []byte) *fw.Violation {
+	enc := ref.HuffEncode(s)
+	for _, dst := range [][]byte{make([]byte, 0, 1), append(make([]byte, 0, 3), "xy"...), append(make([]byte, 0, 4096), "xy"...)} {
+		pre := string(dst)
+		out, ok := implDecodeInto(dst, enc)
+		if !ok || string(out) != pre+string(s) {
+			return &fw.Violation{Rule: "huffman-decode-appends", Shape: fmt.Sprintf("dst len=%d cap=%d", len(dst), cap(dst)),
+				Detail: fmt.Sprintf("HuffmanDecode(dst holding %q with capacity %d, %x) = %q ok=%v, want %q", pre, cap(dst), enc, out, ok, pre+string(s)), Replay: map[string]any{"family": "encode", "hex": hex.EncodeToString(s)}}
+		}
+		eo := http2.HuffmanEncode(append([]byte{}, dst...), s)
+		if string(eo) != pre+string(enc) {
+			return &fw.Violation{Rule: "huffman-encode-appends", Shape: fmt.Sprintf("dst len=%d cap=%d", len(dst), cap(dst)),
+				Detail: fmt.Sprintf("HuffmanEncode(dst holding %q, %x) = %x, want %q followed by %x", pre, s, eo, pre, enc), Replay: map[string]any{"family": "encode", "hex": hex.EncodeToString(s)}}
+		}
 	}
 	return nil
 }
@@ -258,6 +288,66 @@ phase:
 		}
 	}
 	c.Family("encode-phases")
+
+	// (c') density: besides the tree position, a decoder's only other state is how much it has read and written.
+	// Strings at both extremes of the expansion ratio (runs of one symbol per code length: 8/5 symbols per octet
+	// down to 8/30), of every length up to 70 symbols, each also with one symbol of every other code length at
+	// every position (runs up to 24), and every string of up to 9 symbols over two 5-bit, one 6-bit and one
+	// 8-bit code: encoded, compared, decoded back, into empty, short and occupied destinations.
+	denseOne := func(s []byte) {
+		encOne(s)
+		if v := c15Into(s); v != nil {
+			c.Violate(*v)
+		}
+	}
+	reps := alpha[:len(seenLen)]
+	c.Bound["density_run_max"] = 70
+	for _, a := range reps {
+		if item++; !c.Mine(item) {
+			continue
+		}
+		if c.Expired("density runs") {
+			break
+		}
+		for k := 1; k <= 70; k++ {
+			run := bytes.Repeat([]byte{a}, k)
+			denseOne(run)
+			if k > 24 {
+				continue
+			}
+			for p := 0; p < k; p++ {
+				for _, b := range reps {
+					if b != a {
+						t := append([]byte{}, run...)
+						t[p] = b
+						denseOne(t)
+					}
+				}
+			}
+		}
+	}
+	small := []byte{'0', 'a', ' ', '&'}
+	c.Bound["density_small_alphabet_max_len"] = 9
+	var genSmall func(cur []byte)
+	genSmall = func(cur []byte) {
+		if len(cur) >= 5 {
+			denseOne(cur)
+		}
+		if len(cur) == 9 {
+			return
+		}
+		for _, b := range small {
+			genSmall(append(cur, b))
+		}
+	}
+	for _, a := range small {
+		for _, b := range small {
+			if item++; c.Mine(item) && !c.Expired("density small alphabet") {
+				genSmall([]byte{a, b})
+			}
+		}
+	}
+	c.Family("density")
 	c.Sample(map[string]any{"family": "encode", "input_hex": "61ff00", "encoded_hex": hex.EncodeToString(ref.HuffEncode([]byte{0x61, 0xff, 0x00}))})
 
 	// (c) decode BX
